@@ -5,11 +5,8 @@ from nodegen import *
 ID = "C01"
 DRIVER = "node"
 MODEL_FILES = ["Model/Base.v", "Model/Parse.v", "Model/Node.v"]
-THEOREMS = ["C01_set_value_ok", "C01_set_value_refused", "C01_remove_value_spec", "C01_remove_token_refused",
-            "C01_inc_value_ok", "C01_inc_value_refused", "C01_get_spec", "C01_list_keys_spec", "C01_list_keys_sorted",
-            "C01_refines", "C01_refused_changes_nothing", "C01_example"]
+THEOREMS = ["C01_set_value_ok", "C01_set_value_refused", "C01_remove_value_spec", "C01_remove_token_refused", "C01_inc_value_spec", "C01_get_spec", "C01_list_keys_spec", "C01_list_keys_sorted", "C01_refines", "C01_refines_empty", "C01_refused_changes_nothing", "C01_wf_db_empty", "C01_set_value_wf", "C01_remove_value_wf", "C01_inc_value_wf"]
 STRENGTH = {t: "proof-unbounded" for t in THEOREMS}
-STRENGTH["C01_example"] = "example (non-vacuity)"
 RULE = ("exhaustive command sequences (length <= 3 quick / 4 thorough) over a 16-symbol alphabet of "
         "set/set-safe/get/remove/increment/keys/snapshot+flush on keys {a, ab}, plus seeded random sequences of length 5-40 over "
         "a richer alphabet (values with spaces, numeric-looking, empty, '<Empty>', i32 bounds, multi-byte; $$ keys from the admin session); "
